@@ -888,6 +888,21 @@ impl<'p> Sim<'p> {
                     self.stats.inc("fault.blackhole_on");
                 }
             }
+            Action::UplinkRecvError { link } => {
+                // the reader task of the connection that owns this path's socket
+                let fd = self.seam.with(|s| {
+                    let fd = *s.path_fd.get(link)?;
+                    (s.fd_path.get(&fd) == Some(&link)).then_some(fd)
+                });
+                let mut owners: Vec<u64> = fd
+                    .map(|fd| self.world.conn_io.iter().filter(|(_, io)| io.socket.as_raw_fd() == fd).map(|(id, _)| *id).collect())
+                    .unwrap_or_default();
+                owners.sort_unstable();
+                if let Some(conn_id) = owners.first().copied() {
+                    self.stats.inc("fault.uplink_recv_error");
+                    self.push_to_channel(conn_id, Vec::new());
+                }
+            }
             Action::DropReg2 { link, on } => {
                 self.env.set_drop_reg2(link, on);
                 if on {
